@@ -2,15 +2,22 @@
 
 PROPS = {
     "C03": dict(units=["u_readers"],
+                replays=[dict(match=r"FusedReader<R>::read", bin="c03_zero_read", input="POST with Content-Length: 2000, handler calls as_reader().read(&mut []) and then read_to_end: must deliver all 2000 bytes")],
                 claim="request body readers deliver exactly the framed bytes (stream contract of EqualReader/FusedReader)"),
     "C09": dict(units=["u_readers"],
                 claim="dropping a body reader releases the source exactly at the end of the body"),
     "C13": dict(units=["u_readers"],
                 claim="reader contracts are stated over stream() for any admissible short read"),
     "C14": dict(units=["u_readers"],
+                replays=[dict(match=r"EqualReader<R>::drop:pre:n <= ALLOC_LIMIT", bin="c14_alloc", args=["99999999999999999"], input="POST with Content-Length: 99999999999999999 and 3 body bytes; handler responds without reading the body: the process must survive")],
                 claim="allocation bounds at every vec![_; n] site; panic freedom of the verified functions"),
     "C15": dict(units=["u_readers"],
                 claim="EOF / Err of the source are contained by the readers"),
+    "C08": dict(units=["u_pool"],
+                claim="TaskPool::spawn re-establishes the dispatch invariant (queued connections <= registered idle workers) for every queue length and idle count, and either starts a thread for the connection or queues it and notifies a waiter",
+                replays=[dict(match=r"TaskPool::spawn", bin="c08_dispatch", args=["8", "10"],
+                              input="8 keep-alive connections opened at once (10 rounds), one GET on each, all kept open; every request must be answered")],
+                not_decided=["NOT DECIDED: the worker loop inside thread::spawn (its preservation of the invariant is argued in contracts/u_pool.rs.tpl, not proved); 'exactly one worker per connection' (client.take() in a closure in lib.rs)"]),
 }
 
 ASSUMPTIONS = {
